@@ -44,7 +44,8 @@ class Engine:
         self.max_depth = 400
         self.unknown_branches = 0
         self.base = []          # global preconditions (assumed on every path)
-        self.div_mode = 'assume'  # 'assume': denominators != 0 is a recorded assumption; 'fork': branch on zero
+        self.div_mode = 'assume'  # 'assume': fresh quotient q with q*den = num, den != 0 recorded; 'recip': shared reciprocal UF;
+        #                           'direct': keep num/den as a term; 'fork': branch on den == 0
 
     def fresh(self, p='q'):
         self.k += 1
@@ -249,6 +250,13 @@ def _bcast(op, scalar, array):
     return op(z, array)
 
 
+def _scalar(o):
+    """operand types the symbolic scalars know how to combine with; anything else gets NotImplemented so that
+    the other operand's reflected method (e.g. a matrix type) takes over"""
+    return isinstance(o, (SR, SB, bool, int, float, np.bool_, np.integer, np.floating, Fraction)) or z3.is_expr(o) \
+        or (isinstance(o, np.ndarray) and o.ndim == 0)
+
+
 def _nd(o):
     return isinstance(o, np.ndarray) and o.ndim > 0
 
@@ -262,23 +270,29 @@ class SR:
 
     def __add__(self, o):
         if _nd(o): return _bcast(operator.add, self, o)
+        if not _scalar(o): return NotImplemented
         return SR(self.e + lift(o))
     __radd__ = __add__
     def __sub__(self, o):
         if _nd(o): return _bcast(operator.sub, self, o)
+        if not _scalar(o): return NotImplemented
         return SR(self.e - lift(o))
     def __rsub__(self, o):
         if _nd(o): return _bcast(_rsub, self, o)
+        if not _scalar(o): return NotImplemented
         return SR(lift(o) - self.e)
     def __mul__(self, o):
         if _nd(o): return _bcast(operator.mul, self, o)
+        if not _scalar(o): return NotImplemented
         return SR(self.e * lift(o))
     __rmul__ = __mul__
     def __truediv__(self, o):
         if _nd(o): return _bcast(operator.truediv, self, o)
+        if not _scalar(o): return NotImplemented
         return quot(self.e, lift(o))
     def __rtruediv__(self, o):
         if _nd(o): return _bcast(_rtruediv, self, o)
+        if not _scalar(o): return NotImplemented
         return quot(lift(o), self.e)
     def __neg__(self): return SR(-self.e)
     def __pos__(self): return self
@@ -402,13 +416,17 @@ def quot(num, den):
         q = ENG.fresh('q')
         ENG.defs.append(q * den == num)
         return SR(q)
-    # reciprocal as an uninterpreted function of the (simplified) denominator with its defining equation:
-    # equal denominators share one reciprocal, so identities between quotients stay polynomial
-    rc = RECIP(den_s)
-    d = den_s * rc == 1
-    if not any(z3.eq(d, o) for o in ENG.defs[-40:]):
-        ENG.defs.append(d)
-    return SR(num * rc)
+    if ENG.div_mode == 'recip':
+        # reciprocal as an uninterpreted function of the (simplified) denominator with its defining equation:
+        # equal denominators share one reciprocal, so identities between quotients stay polynomial
+        rc = RECIP(den_s)
+        d = den_s * rc == 1
+        if not any(z3.eq(d, o) for o in ENG.defs[-40:]):
+            ENG.defs.append(d)
+        return SR(num * rc)
+    q = ENG.fresh('q')
+    ENG.defs.append(z3.And(den != 0, q * den == num))
+    return SR(q)
 
 
 def sym(name):
